@@ -29,6 +29,8 @@ type verifC01Case struct {
 	Conc  *struct { // optional: forced interleaving of concurrent calls
 		Sched [][]int64 `json:"sched"` // [tid, dt]
 	} `json:"conc,omitempty"`
+	Insts []int64    `json:"insts,omitempty"` // multi: several breakers / registry names (verif_c01_multi_test.go)
+	Mops  []verifMOp `json:"mops,omitempty"`
 }
 
 type verifC01Out struct {
@@ -341,6 +343,8 @@ func TestVerifC01(t *testing.T) {
 		var o verifC01Out
 		if selfErr != nil {
 			o = verifC01Out{ID: c.ID, Err: "proba self-test: " + selfErr.Error()}
+		} else if c.Insts != nil {
+			o = verifRunMulti(c)
 		} else if c.Conc != nil {
 			o = verifRunConc(c)
 		} else {
